@@ -157,6 +157,8 @@ type Opts struct {
 	StreamFilters []v2.Filter
 	Hosts         []string // upstream addresses (the caller owns the upstream servers)
 	RouterConfig  func(*v2.RouterConfiguration)
+	// ProxyExtend replaces the proxy filter's extend_config, e.g. {"Http2": {"http2_use_stream": true}}
+	ProxyExtend map[string]interface{}
 }
 
 // Case is one isolated proxy instance inside the shared MOSN.
@@ -267,6 +269,9 @@ func NewCase(o Opts) (*Case, error) {
 		default:
 			px.DownstreamProtocol, px.UpstreamProtocol = "X", "X"
 			px.ExtendConfig = map[string]interface{}{"sub_protocol": o.Down}
+		}
+		if o.ProxyExtend != nil {
+			px.ExtendConfig = o.ProxyExtend
 		}
 		filters = []v2.Filter{{Type: "proxy", Config: toMap(px)}}
 	}
